@@ -632,6 +632,24 @@ def t5(ck: Check) -> None:
     ASP program, the request parameters are handed down unchanged (a `None` may be replaced by the default)."""
     prog = ck.prog
     MOD = "biobalm.trappist_core"
+    # an omitted optional argument asks for nothing: no limit, no restriction, nothing avoided
+    for fm in prog.models():
+        f = fm.f
+        if f.module.name != MOD or f.parent is not None:
+            continue
+        a_ = f.node.args
+        pos = a_.posonlyargs + a_.args
+        dflt = dict(zip([x.arg for x in pos[len(pos) - len(a_.defaults):]], a_.defaults))
+        dflt.update({x.arg: d for x, d in zip(a_.kwonlyargs, a_.kw_defaults) if d is not None})
+        for pn in ("solution_limit", "ensure_subspace", "avoid_subspaces", "optimize_source_variables"):
+            if pn in dflt:
+                d_ = dflt[pn]
+                ok = is_none(d_) or (pn != "solution_limit" and (isinstance(d_, (ast.List, ast.Tuple)) and not d_.elts
+                                                                 or isinstance(d_, ast.Dict) and not d_.keys))
+                ck.ob("T5", fm, f.node, ok, f"`{pn}` defaults to nothing requested" if ok else
+                      f"`{pn}` defaults to `{text(dflt[pn])}`: a caller that does not ask for a "
+                      f"{'limit gets a truncated list' if pn == 'solution_limit' else 'restriction gets one'} without knowing",
+                      key=f"{f.name}: default of {pn}")
     for fm in prog.models():
         f = fm.f
         if f.module.name != MOD:
@@ -647,6 +665,19 @@ def t5(ck: Check) -> None:
                     pc = fm.pc(n)
                     none_atom = logic.B(f"none:{pn}")
                     ok = v is not None and ((none_atom[1] in logic.atoms(pc) and logic.implies(pc, none_atom)) or _same_request(v, pn))
+                    if ok and pn == "optimize_source_variables" and not _same_request(v, pn):
+                        # the default is computed from the very net that is being solved, every time
+                        dv = fm.deref(v, n)
+                        enc_args = {a_.id for c_ in own_walk(f.node) if isinstance(c_, ast.Call) and callee_name(c_) == "_create_clingo_constraints"
+                                    for a_ in list(c_.args) + [k_.value for k_ in c_.keywords] if isinstance(a_, ast.Name)}
+                        fresh = is_empty_list(dv) or (
+                            isinstance(dv, ast.Call) and callee_name(dv) == "extract_source_variables" and len(dv.args) == 1
+                            and isinstance(dv.args[0], ast.Name) and (dv.args[0].id in mine or dv.args[0].id in enc_args))
+                        ck.ob("T5", fm, n.ast, fresh, "default source variables extracted from the net being solved" if fresh else
+                              f"the default for `{pn}` is `{text(dv)[:60]}`, not extract_source_variables(<the net>): a list that was "
+                              f"remembered (with the net, its copies and restrictions, or globally) describes another net",
+                              key=f"{f.name}: default value of {pn}")
+                        continue
                     ck.ob("T5", fm, n.ast, ok, f"`{pn}`: default for an omitted argument" if ok else
                           f"the request parameter `{pn}` is re-bound (`{text(n.ast)[:60]}`) although the caller supplied a "
                           f"value: the rest of the function works with something the caller did not ask for",
